@@ -67,6 +67,16 @@ def cases_beat(r):
             "Correct Metric Level Total": 1.0, "Any Metric Level Continuous": 1.0,
             "Any Metric Level Total": 1.0, "Information gain": 1.0}),
     ]
+    if r.random() < 0.1:
+        # one or two beats: F-measure and Cemgil are defined (and perfect) already
+        a0 = r.randrange(5 * 64, 40 * 64)
+        x = np.array([a0] + ([a0 + r.randrange(32, 256)] if r.random() < 0.5 else [])) / 64.0
+        y = x.copy()
+        out = [("beat.f_measure", (x, y), kw(r, tasks.BEAT_PARAMS["f_measure"]), 1.0),
+               ("beat.cemgil", (x, y), kw(r, {"cemgil_sigma": [0.04, 1 / 32]}), [1.0, 1.0]),
+               ("beat.evaluate", (x, y), {}, {"F-measure": 1.0, "Cemgil": 1.0,
+                                              "Cemgil Best Metric Level": 1.0})]
+        return out, ("beat-few", x), False
     return out, ("beat", x), len(x) >= 3
 
 
@@ -151,8 +161,13 @@ def cases_chord(r):
     iv, _ = gen.segmentation(r, n=n, start=r.choice([0, 0, 32, 640]))
     lab = [chordgen.random_label(r) for _ in range(len(iv))]
     y_iv, y_lab = iv.copy(), list(lab)
-    return [("chord.evaluate", (iv, lab, y_iv, y_lab), {}, "CHORD-PERFECT")], \
-        ("chord", iv, lab), len(iv) >= 3 and len(set(lab)) >= 2
+    out = [("chord.evaluate", (iv, lab, y_iv, y_lab), {}, "CHORD-PERFECT")]
+    # segmentation scores of an annotation with un-annotated gaps against itself
+    g = gen.gapped_intervals(r)
+    out += [("chord.overseg", (g, g.copy()), {}, 1.0),
+            ("chord.underseg", (g, g.copy()), {}, 1.0),
+            ("chord.seg", (g, g.copy()), {}, 1.0)]
+    return out, ("chord", iv, lab), len(iv) >= 3 and len(set(lab)) >= 2
 
 
 def cases_melody(r):
